@@ -7,9 +7,11 @@
   identifies an int with the same-valued float, `None` with `None` and NaN with NaN.
 -/
 import PygModel.Join
+import PygModel.Native
 import PygProofs.Lemmas.JoinLemmas
 import PygProofs.Lemmas.KeyEq
 import PygProofs.Lemmas.JoinCols
+import PygProofs.Lemmas.NativeLemmas
 
 namespace Pyg.Props.C02
 open Pyg
@@ -697,5 +699,110 @@ theorem xor_key_error_right (x y : Table) (lc rc : List KeySpec) (mode : Nat) (l
     xor x y (some lc) (some rc) mode = .error e := by
   have hne' : lc.isEmpty = false := by cases lc <;> simp_all
   simp [xor, hlen, hne', hlk, hrk, bind, Except.bind]
+
+
+/-! ## the keys the theorems are about vs. the keys `pyg_base.sort` orders as the model does (review t1, C02 fidelity)
+
+`join_spec`, `xor_spec`, `left_join_table` hold in the model for ALL `Val` keys.  The model sorts the decorated keys with the stable merge sort by
+`cmp`; the code calls `pyg_base.sort`, i.e. python's native `sorted()` unless that raises.  The two coincide on the property's key universe (scalar
+key columns: `keysOf_cols_scalar`, `join_keys_native_agree`), and do NOT on computed keys that are lists / tuples of different lengths
+(`native_order_is_not_cmp_order_on_unequal_lists`, `merge_over_native_order_loses_pair`): there the real `join` loses pairs and `xor` keeps matched
+rows.  Such keys are outside C02's quantifier; the harness generates them as a divergence class only. -/
+
+theorem mapM_keyCol_cols (t : Table) : ∀ (names : List String) (cols : List (List Val)),
+    (names.map KeySpec.col).mapM t.keyCol = .ok cols →
+    ∃ cc : List (List Cell), cols = cc.map (·.map .cell) ∧ cc.length = names.length
+  | [], cols, h => by
+    simp only [List.map_nil, List.mapM_nil, pure, Except.pure, Except.ok.injEq] at h
+    exact ⟨[], by simp [← h], rfl⟩
+  | n :: ns, cols, h => by
+    simp only [List.map_cons, List.mapM_cons, bind, Except.bind] at h
+    split at h
+    · cases h
+    · rename_i c hc
+      split at h
+      · cases h
+      · rename_i cs hcs
+        simp only [pure, Except.pure, Except.ok.injEq] at h
+        obtain ⟨cc, rfl, hl⟩ := mapM_keyCol_cols t ns cs hcs
+        simp only [Table.keyCol] at hc
+        split at hc
+        · rename_i xs _
+          simp only [Except.ok.injEq] at hc
+          exact ⟨xs :: cc, by simp [← h, ← hc], by simp [hl]⟩
+        · cases hc
+
+/-- keys read from COLUMNS (`lcols` / `rcols` given as names — the property's quantifier: keys drawn from scalars) are tuples of scalar
+cells, all of the same length (one entry per key column) -/
+theorem keysOf_cols_scalar (t : Table) (names : List String) (ks : List Val)
+    (h : t.keysOf (names.map .col) = .ok ks) :
+    ∀ k ∈ ks, ∃ cs : List Cell, k = .tuple (cs.map .cell) ∧ cs.length = names.length := by
+  simp only [Table.keysOf, bind, Except.bind] at h
+  split at h
+  · cases h
+  · rename_i cols hcols
+    simp only [pure, Except.pure, Except.ok.injEq] at h
+    subst h
+    obtain ⟨cc, rfl, hl⟩ := mapM_keyCol_cols t names cols hcols
+    intro k hk
+    simp only [zipCols, List.mem_map, List.mem_range] at hk
+    obtain ⟨i, _, rfl⟩ := hk
+    refine ⟨cc.map (·.getD i .none), ?_, by simp [hl]⟩
+    simp only [List.map_map, Function.comp_def, List.getD_eq_getElem?_getD, List.getElem?_map]
+    congr 1
+    apply List.map_congr_left
+    intro c _
+    cases c[i]? <;> rfl
+
+/-- the reviewer's witness (t1, C02): left rows with the COMPUTED keys `[3]` (row 0) and `[1,2]` (row 1), grouped and put in python's NATIVE order
+(`[1,2] < [3]`, lexicographic) - what `pyg_base.sort` returns, since `sorted()` does not raise on lists -/
+def lstKeyL : List Grp := [(.tuple [.list [.cell (.int 1), .cell (.int 2)]], [1]), (.tuple [.list [.cell (.int 3)]], [0])]
+def lstKeyR : List Grp := [(.tuple [.list [.cell (.int 3)]], [0])]
+
+/-- **the sort assumption fails on container keys of different lengths** (computed keys; OUTSIDE the quantifier "keys drawn from None, ints, floats,
+strings, datetimes"): natively `[1,2] < [3]`, under `cmp` (length first) `[1,2] > [3]`, also inside the one-entry key tuples -/
+theorem native_order_is_not_cmp_order_on_unequal_lists :
+    nativeArr [.int 1, .int 2] [.int 3] = some .lt ∧
+    cmp (.list [.cell (.int 1), .cell (.int 2)]) (.list [.cell (.int 3)]) = .gt ∧
+    cmp (.tuple [.list [.cell (.int 1), .cell (.int 2)]]) (.tuple [.list [.cell (.int 3)]]) = .gt := by decide
+
+/-- the merge loop of `join`, run over group lists in that NATIVE order, steps over the matching `[3]` group: no pair is emitted.  This is what the real
+code does on such keys; `join_spec` / `xor_spec` / `left_join_table` speak of the MODEL, whose groups are `cmp`-sorted (`model_join_finds_pair`), and
+model = code only where native order = `cmp` order: `join_keys_native_agree` -/
+theorem merge_over_native_order_loses_pair :
+    (mergeRun joinEmit lstKeyL lstKeyR).res = [] := by decide
+
+/-- on the keys of the property's quantifier (key COLUMNS on both sides: equal-length tuples of scalars) python's native tuple order - which
+`pyg_base.sort` uses whenever it does not raise - IS `cmp` wherever it is defined (bools apart: `C07.native_differs_on_bool`), so a natively
+sorted key list is the `cmp`-sorted one the model's `sortedKeyIds` stands for.  (`C07.native_agrees_tuple` applied to the keys of a join.) -/
+theorem join_keys_native_agree (x y : Table) (ln rn : List String) (lk rk : List Val)
+    (hlen : ln.length = rn.length)
+    (hlk : x.keysOf (ln.map .col) = .ok lk) (hrk : y.keysOf (rn.map .col) = .ok rk) :
+    ∀ a ∈ lk ++ rk, ∀ b ∈ lk ++ rk, ∃ xs ys : List Cell, a = .tuple (xs.map .cell) ∧ b = .tuple (ys.map .cell) ∧
+      xs.length = ys.length ∧
+      ((∀ c ∈ xs, c.isBool = false) → (∀ c ∈ ys, c.isBool = false) → ∀ o, nativeArr xs ys = some o → cmp a b = o) := by
+  have key : ∀ a ∈ lk ++ rk, ∃ cs : List Cell, a = .tuple (cs.map .cell) ∧ cs.length = ln.length := by
+    intro a ha
+    rcases List.mem_append.mp ha with h | h
+    · exact keysOf_cols_scalar x ln lk hlk a h
+    · obtain ⟨cs, h1, h2⟩ := keysOf_cols_scalar y rn rk hrk a h
+      exact ⟨cs, h1, by omega⟩
+  intro a ha b hb
+  obtain ⟨xs, rfl, hx⟩ := key a ha
+  obtain ⟨ys, rfl, hy⟩ := key b hb
+  have hl : xs.length = ys.length := by omega
+  refine ⟨xs, ys, rfl, rfl, hl, ?_⟩
+  intro hbx hby o h
+  simp only [cmp, Val.norm, normList_map_cell, cmpN, List.length_map, hl]
+  have : compare ys.length ys.length = .eq := by simp
+  rw [this]
+  exact cmpArr_cells_native xs ys hl hbx hby o h
+
+/-- ... while the MODEL (groups sorted by `cmp`) pairs left row 0 (`[3]`) with right row 0 (`[3]`) -/
+theorem model_join_finds_pair :
+    (0, 0) ∈ joinPairs [.tuple [.list [.cell (.int 3)]], .tuple [.list [.cell (.int 1), .cell (.int 2)]]] [.tuple [.list [.cell (.int 3)]]] := by
+  rw [join_pairs_iff]
+  decide
+
 
 end Pyg.Props.C02
